@@ -687,7 +687,7 @@ func corpusCfg(name string) genCfg {
 		base.wSend, base.wSave, base.wTx, base.wAm = 5, 5, 0, 0
 		base.sendAllRate = 2
 		base.srcDepth, base.dstDepth = 1, 1
-		base.dsts = []string{"x", "y", "a"}
+		base.dsts = []string{"x", "y", "a", "world"}
 		base.nums = []int{0, 1, 2, 3, 4, 5, 7, 8, 10, 12, 20, 30}
 		base.infix = true
 	case "exact": // C03
